@@ -396,3 +396,39 @@ def replay(harness, params, values):
     except Violation as v:
         verdict = (v.key, v.msg)
     return verdict, sym
+
+
+class CachingSym:
+    """Wraps a Sym/ConcreteSym so that asking twice for the same name yields the same value.
+    Lets a harness run two worlds on the *same* symbolic behaviour (differential checks)."""
+
+    def __init__(self, inner):
+        self._inner = inner
+        self._cache = {}
+        self.symbolic = inner.symbolic
+
+    def _memo(self, name, make):
+        if name not in self._cache:
+            self._cache[name] = make()
+        return self._cache[name]
+
+    def int(self, name, lo=None, hi=None):
+        return self._memo(name, lambda: self._inner.int(name, lo, hi))
+
+    def bool(self, name):
+        return self._memo(name, lambda: self._inner.bool(name))
+
+    def real(self, name, lo=None, hi=None):
+        return self._memo(name, lambda: self._inner.real(name, lo, hi))
+
+    def choice(self, name, options):
+        return options[self._memo("choice:" + name, lambda: options.index(self._inner.choice(name, options)))]
+
+    def assume(self, cond):
+        return self._inner.assume(cond)
+
+    def cover(self, label, cond=True):
+        return self._inner.cover(label, cond)
+
+    def note(self, k, v):
+        return self._inner.note(k, v)
